@@ -30,6 +30,8 @@ def run(idx, rep, tier):
     ericson.r_ericson(idx, rep)
     partition.r_isolated(idx, rep, [m.name for m in idx.lib_modules() if m.name.startswith('distance3d.distance')], floor=1)
     misc2.r_dupcond(idx, rep, [m.name for m in idx.lib_modules()], floor=3)
+    generic2.r_rimpoint(idx, rep, [m.name for m in idx.lib_modules() if m.name.startswith("distance3d.distance")], floor=4)      # centre + radius * v is on the circle only for unit v
+    onsegment.r_clipsym(idx, rep, [x.name for x in idx.lib_modules() if x.name.startswith("distance3d.distance")], floor=4)
     generic2.r_axispair(idx, rep, [m.name for m in idx.lib_modules()], floor=0)      # one site today; a vectorised test has no component pairs to mis-pair
     siblings.r_segsibling(idx, rep)
     misc2.r_parallelsign(idx, rep, [x.name for x in idx.lib_modules() if x.name.startswith("distance3d.distance")])
